@@ -1099,13 +1099,21 @@ class TestNode(Runnable):
             logging.info(
                 f"Bridging {self.params['shortname']} to {test_node.params['shortname']}"
             )
+            # a node that is already bridged keeps its registers and shares them instead
+            sharing_nodes = (
+                [self]
+                if len(self._bridged_nodes) == 0
+                else [test_node, *test_node._bridged_nodes]
+            )
+            register_node = test_node if len(self._bridged_nodes) == 0 else self
             self._bridged_nodes.append(test_node)
             test_node._bridged_nodes.append(self)
 
-            self._picked_by_setup_nodes = test_node._picked_by_setup_nodes
-            self._dropped_setup_nodes = test_node._dropped_setup_nodes
-            self._picked_by_cleanup_nodes = test_node._picked_by_cleanup_nodes
-            self._dropped_cleanup_nodes = test_node._dropped_cleanup_nodes
+            for node in sharing_nodes:
+                node._picked_by_setup_nodes = register_node._picked_by_setup_nodes
+                node._dropped_setup_nodes = register_node._dropped_setup_nodes
+                node._picked_by_cleanup_nodes = register_node._picked_by_cleanup_nodes
+                node._dropped_cleanup_nodes = register_node._dropped_cleanup_nodes
 
     def clone_as_source(self, test_nodes: list["TestNode"]) -> None:
         """
